@@ -1,72 +1,71 @@
-"""C10 — refcounted caches (TTLCache / LRUCache) finalise each value exactly once and never while held."""
-import os
-import re
+"""C10 — refcounted caches (TTLCache / LRUCache) finalise each value exactly once and never while held.
 
-import vlib
+No textual pin on the Go sources.  The premise the proof rests on ("every operation, every release
+closure and the timer function is atomic w.r.t. the cache state, so every schedule is a sequence of
+the modelled operations") is observed dynamically on every run: TestVerifC10Conc runs concurrent
+histories (incl. real timers) on a -race build with an interleaving-sound oracle; a data race makes
+the binary fail, which is a violation whose replay carries the race report (the schedule)."""
+
+TAGS = "verif_c10"   # not `verif`: keeps other properties' export shims of the same packages (which
+                     # name unexported identifiers) out of this check's build
 
 
-def _lock_first_facts(ctx):
-    """Structural tie for the atomicity premise ("every schedule is a sequence of atomic ops"):
-    every exported method, the timer function and every done closure of both caches must take the
-    cache mutex as its first statement and release it by defer.  Regenerated from the current
-    sources on every run; a mismatch is a broken tie."""
-    want = {
-        "util/cacheutil/ttlcache.go": [
-            r"func \(c \*TTLCache\) Get\([^\n]*\{",
-            r"func \(c \*TTLCache\) Add\([^\n]*\{",
-            r"func \(c \*TTLCache\) Remove\([^\n]*\{",
-            r"time\.AfterFunc\(c\.ttl, func\(\) \{",
-            r"return func\(evict bool\) \{",
-        ],
-        "util/cacheutil/lrucache.go": [
-            r"func \(c \*LRUCache\) Get\([^\n]*\{",
-            r"func \(c \*LRUCache\) Add\([^\n]*\{",
-            r"func \(c \*LRUCache\) Remove\([^\n]*\{",
-            r"return func\(\) \{",
-        ],
-    }
-    n = 0
-    for rel, heads in want.items():
-        try:
-            src = open(os.path.join(vlib.REPO, rel)).read()
-        except OSError:
-            ctx.broken.append(f"fact:missing:{rel}")
-            continue
-        for h in heads:
-            m = re.search(h + r"\s*\n\s*c\.mu\.Lock\(\)\s*\n\s*defer c\.mu\.Unlock\(\)\s*\n", src)
-            if not m:
-                ctx.broken.append(f"fact:lock-first:{rel}:{h[:32]}")
-            else:
-                n += 1
-    ctx.cov["facts_checked"] += n
+def _binary(ctx, pkg, name, race=False, shim=True):
+    """Build the harness; if the variant with the package-internal shim does not compile against
+    the tree under test (an unexported identifier was renamed/restructured — not a property matter),
+    fall back to the exported-API-only variant.  Returns (path|None, used_shim)."""
+    if shim:
+        n0 = len(ctx.broken)
+        b = ctx.go_test_binary(pkg, name, race=race, tags=TAGS)
+        if b:
+            return b, True
+        del ctx.broken[n0:]
+        ctx.log("internal shim does not compile on this tree; falling back to the exported-API harness")
+    b = ctx.go_test_binary(pkg, name, race=race, tags=TAGS + ",verif_c10_noshim")
+    if b and shim:
+        note = ("zz_verif_c10shim_test.go did not compile against this tree: timer-path expiry driven through "
+                "Remove, entry count / side-effect-free lookup not observed (exported-API fallback)")
+        if note not in ctx.notes:
+            ctx.notes.append(note)
+    return b, False
 
 
 def run(ctx):
     ctx.lean_obligations(["SV.Props.C10"], drivers=["svdriver_c10"])
     quick = ctx.tier == "quick"
-    _lock_first_facts(ctx)
-    b = ctx.go_test_binary("util/cacheutil", "h_cacheutil")
+    # sequential histories: model correspondence + oracle
+    b, shim = _binary(ctx, "util/cacheutil", "h_cacheutil")
     if b:
         ctx.correspond(b, "TestVerifC10", "svdriver_c10", "c10",
                        env={"VERIF_N": 15000 if quick else 150000})
-    if not quick:
-        br = ctx.go_test_binary("util/cacheutil", "h_cacheutil_race", race=True)
-        if br:
-            ctx.correspond(br, "TestVerifC10Conc", "svdriver_c10", "c10conc", env={"VERIF_N": 40})
+    # concurrent histories under the race detector (both tiers): atomicity of every operation
+    br, _ = _binary(ctx, "util/cacheutil", "h_cacheutil_race", race=True, shim=shim)
+    if br:
+        ctx.correspond(br, "TestVerifC10Conc", "svdriver_c10", "c10conc",
+                       env={"VERIF_N": 4 if quick else 40}, timeout=900)
+    # use site: readers of cache.NewDirectoryCache hold their buffer / file
+    bu, _ = _binary(ctx, "cache", "h_cache", shim=False)
+    if bu:
+        ctx.correspond(bu, "TestVerifC10Use", "svdriver_c10", "c10use",
+                       env={"VERIF_N": 150 if quick else 3000}, timeout=900)
     return ctx.finish(
         level="proof",
-        rule="13 scripted edge histories (re-add while an older value is held, double done, evicting release by an "
-             "old holder after re-add, capacity eviction while held, cap 0, missing keys, expiry of a held value), "
-             "then random histories of 5-64 ops over 3-5 keys on a fresh TTLCache or LRUCache (cap 0-3) with "
-             "per-history op weights, each drained at the end; a history is distinct by (cache kind, cap, sequence "
-             "of op kinds/outcomes/callback positions); every op is compared impl-vs-model (returned value, token, "
-             "added/ok, entry count, set of values finalised during the op) and the oracle tracks per value the "
-             "callback count, cache membership and outstanding holders"
-             + ("" if quick else "; plus an oracle-only concurrent stress (8 goroutines, -race)"),
+        rule="(1) sequential: 13 scripted edge histories (re-add while an older value is held, double done, evicting "
+             "release by an old holder after re-add, capacity eviction while held, cap 0, missing keys, expiry of a "
+             "held value), then random histories of 5-64 ops over 3-5 keys on a fresh TTLCache or LRUCache (cap 0-3) "
+             "with per-history op weights, each drained at the end; a history is distinct by (cache kind, cap, "
+             "sequence of op kinds/outcomes/callback positions); every op is compared impl-vs-model (returned value, "
+             "token, added/ok, entry count, set of values finalised during the op) and the oracle tracks per value "
+             "the callback count, cache membership and outstanding holders.  (2) concurrent, -race build: 8 workers x "
+             "4 phases x 150 ops on 4 keys per cache (TTL with hour ttl + timer-path expiry, TTL with 300us ttl = "
+             "real timers firing under load, LRU cap 0-3), oracle sound under every interleaving while running and "
+             "the full sequential predicate at every quiescent point and after the drain.  (3) use site: histories "
+             "of Add/Get/Close on cache.NewDirectoryCache with 1-3 memory and fd entries (default and injected LRU "
+             "caches), every open reader re-read after every op",
         assumptions=[
-            "every TTLCache/LRUCache method, the timer function and every done closure holds the cache mutex for "
-            "its whole body (checked each run on the sources), hence every schedule is a sequence of the atomic "
-            "operations the theorems quantify over",
+            "every schedule is a sequence of the atomic operations the theorems quantify over: observed each run by "
+            "the concurrent harness on a -race build (data race or interleaving-oracle failure = violation), not "
+            "pinned to how the Go code locks",
             "timer expiry is modelled as an operation enabled at any time on any key (over-approximates "
             "time.AfterFunc, including a stale timer evicting a re-added value); real time is outside the model",
             "OnEvicted is non-nil and does not re-enter the cache",
